@@ -28,7 +28,7 @@ func init() {
 			"GroupBy with no columns on an empty frame is not demanded either way",
 			"order of groups is free; the order of rows inside a group is frame order",
 		},
-		Stages:   stages(4000, 40000, 300, 300),
+		Stages:   stages(4000, 100000, 300, 300),
 		RunCase:  runC04,
 		Conclude: shapeConclude(30),
 	})
@@ -42,7 +42,7 @@ func init() {
 			"key equality as for GroupBy (C04)",
 			"which row of a class is kept and the order of the result are free",
 		},
-		Stages:   stages(5000, 60000, 300, 300),
+		Stages:   stages(5000, 150000, 300, 300),
 		RunCase:  runC05,
 		Conclude: shapeConclude(30),
 	})
